@@ -48,6 +48,7 @@ struct Exec {
     std::map<std::string, bool> nt;
     std::string prop;                     // property being checked (selects profile-specific behaviour only)
     bool ctx_teardown = false, torn_in_teardown = false;
+    bool unobserved_mode = false;
     bool nt_last_illegal = false; long fd_bytes[8];
     std::deque<UBox> boxes;
     double tick_armed_at = 0; long ticks_seen = 0;
@@ -112,6 +113,7 @@ struct Exec {
     int on_cb_end(Inst *x, int kind);
     void check_handler_events(Inst *x, Frame &f);
     void loop_end_obligations();
+    void reconcile_unobserved(bool starts);
     void quiescence_obligations();
     void epilogue();
     rt::Verdict run();
